@@ -49,7 +49,7 @@ class FakeTls(object):
         return ('TLS_FAKE', 'TLSv1.3', 256)
 
     def getpeercert(self, binary_form=False):
-        if binary_form:
+        if binary_form or self._cert is None:
             return self._cert
         return {}
 
@@ -83,6 +83,9 @@ class TlsWorld(World):
             def get_ssl_context(self_inner):
                 if not self_inner.tls_enable:
                     return None
+                if handshake_ok == 'no-context':
+                    # the configured certificate / key files cannot be read
+                    raise FileNotFoundError(2, 'No such file or directory')
                 return FakeCtx(log, handshake_ok, cert_der)
         self.role = role
         ridx = 1 if role == 'passive' else 0
@@ -237,6 +240,17 @@ def run_table1(params, known):
                 viol('connection-left-open-after-policy-failure', dict(), repr(obs), row)
         if len(samples) < 1:
             samples.append(dict(row=row, observed=obs))
+    # the TLS context cannot be made (the configured files are unreadable) although both ends offer TLS and TLS is
+    # required: whatever else happens to the contact (the error is the operator's), no session in the clear
+    for (peer_flags, role, one_read) in itertools.product((0x01, 0xFF), ('active', 'passive'), (False, True)):
+        count += 1
+        row = dict(tls_enable=True, peer_can_tls=True, peer_flags=peer_flags, require_tls=True, role=role, tls_context='cannot be made',
+                   sess_init_in_the_same_read=one_read)
+        world = TlsWorld(role, True, True, False, False, False, 'no-context', None)
+        obs = run_exchange(world, True, peer_flags=peer_flags, one_read=one_read)
+        keys.add(repr(sorted(row.items())))
+        if obs['sess_init'] or obs['established']:
+            viol('session-proceeds-against-tls-policy', dict(require='True'), 'proceeded in the clear: %r' % (obs,), row)
     return dict(name='table1', evaluations=count, nontrivial_keys=sorted(keys), violations=violations, known=[], samples=samples)
 
 
@@ -581,18 +595,24 @@ def run_table2(params, known):
         v['case'] = row
         violations.append(v)
     idx = -1
-    for bits in range(64):
-        sans = tuple(SAN_BITS[i] for i in range(6) if bits >> i & 1)
+    for bits in list(range(64)) + [None]:
+        # None: the peer presents no certificate at all (certificates are optional for a TLS client,
+        # so only the passive role can meet this): nothing is authenticated
+        sans = tuple(SAN_BITS[i] for i in range(6) if bits >> i & 1) if bits is not None else ()
         for (by_name, require_host, require_node, role, announced) in itertools.product((False, True), (False, True), (False, True),
                                                                                        ('active', 'passive'), ANNOUNCED):
             if announced not in ('own', 'empty') and 'uri-match' not in sans:
+                continue
+            if bits is None and role != 'passive':
                 continue
             idx += 1
             if idx % parts != part:
                 continue
             count += 1
             row = dict(sans=list(sans), by_name=by_name, require_host=require_host, require_node=require_node, role=role, announced=announced)
-            world = TlsWorld(role, True, True, require_host, require_node, by_name, True, make_cert(sans))
+            if bits is None:
+                row['certificate'] = 'none presented'
+            world = TlsWorld(role, True, True, require_host, require_node, by_name, True, make_cert(sans) if bits is not None else None)
             obs = run_exchange(world, True, node_id=ANNOUNCED[announced])
             if world.escaped:
                 viol('exception-escaped-callback', dict(exc=world.escaped[-1][0]), '%s: %s' % world.escaped[-1][:2], row)
@@ -633,14 +653,16 @@ def scenarios(tier):
 
 ASSUMPTIONS = [
     'the TLS handshake is scripted (succeeds or raises SSLError); only the policy decisions around it are decided',
+    'a TLS context that cannot be made (unreadable files, 8 rows): only "no session in the clear when TLS is required" is judged, the error itself is the operator\'s',
     'certificates are real X.509 (EC P-256, self-signed) carrying the chosen subject alternative names',
     'an identifier type "contradicts" when the certificate presents names of that type and none equals the reference; with no reference (peer DNS name unknown) a DNS name cannot contradict and cannot authenticate the host',
     'configuration file: read by the JSON-subset stand-in for PyYAML; every combination of absent / true / false / null / 0 / empty values of nine settings, and the TLS rows of table 1 with the settings taken from the file',
     'two contacts of one process whose settings differ in tls_enable (8 pairs of settings x roles x peers offering TLS or not), started and answered in all 6 orders',
     'a correct scripted peer: contact header (flags octet 0x00, 0x01, 0x03, 0x81, 0xFE or 0xFF: reserved bits are ignored), then SESS_INIT announcing its node ID, a zero-length node ID, or its node ID with white space / one more character around it (which no URI name of a certificate equals)',
+    'a TLS client that presents no certificate at all (the context asks for one but does not require it): 16 more rows of table 2, passive role',
 ]
 
-RULE = ('complete decision tables (288 + 3584 rows) executed on a fresh real endpoint each; non-trivial = rows in which the '
+RULE = ('complete decision tables (296 + 3600 rows) executed on a fresh real endpoint each; non-trivial = rows in which the '
         'policy forbids the session (table 2) or allows it (table 1)')
 
 
